@@ -384,8 +384,11 @@ class Deriv:
                 else:
                     r += self.sources(val, df, e2)
             for n in df.all_nodes():
+                recv_ = n.func.value if isinstance(n, ast.Call) and isinstance(n.func, ast.Attribute) else None
+                if isinstance(recv_, ast.Subscript) and isinstance(recv_.value, ast.Name):
+                    recv_ = recv_.value         # `groups[-1].append(c)`: c ends up inside (an element of) groups
                 if isinstance(n, ast.Call) and isinstance(n.func, ast.Attribute) \
-                        and isinstance(n.func.value, ast.Name) and n.func.value.id == name \
+                        and isinstance(recv_, ast.Name) and recv_.id == name \
                         and n.func.attr in ('append', 'extend', 'insert', 'add', 'update'):
                     owner = self.repo.enclosing_func(n)
                     if self.ctx.scope(owner).lookup_def(name, owner)[0] is not df:
